@@ -124,6 +124,10 @@ type Knobs struct {
 	// that the connection handlers really run in parallel (real sync primitives,
 	// -race build); the cooperative scheduler has nothing to schedule then.
 	Burst bool `json:"burst,omitempty"`
+	// WriterPref: a writer kept waiting by readers may announce itself (an explicit
+	// scheduling event), after which new read locks of that stripe wait behind it,
+	// as with Go's sync.RWMutex once Lock has been called.
+	WriterPref bool `json:"writer_pref,omitempty"`
 	// ReplyYield: the handler parks between "reply computed" and "reply serialised"
 	// (reply hook), so that other connections can run in between: a reply that
 	// aliases stored bytes which a later command rewrites in place shows up.
@@ -558,6 +562,8 @@ func (w *World) events() []event {
 	for _, t := range pending {
 		if w.vs.Enabled(t) {
 			evs = append(evs, event{kind: "run", task: t, name: t.Name})
+		} else if w.sc.Knobs.WriterPref && w.vs.CanAnnounce(t) {
+			evs = append(evs, event{kind: "announce", task: t, name: t.Name})
 		}
 	}
 	canClock := w.canAdvanceClock(pending) && w.clockRoom(pending) > 0
@@ -887,6 +893,10 @@ func lockIDOf(t *vsync.Task) int {
 
 func (w *World) apply(e event) {
 	switch e.kind {
+	case "announce":
+		w.traceHashed("announce "+e.task.Name, "announce "+e.task.String())
+		w.res.Faults["writer-announced-behind-readers"]++
+		w.vs.Announce(e.task)
 	case "run":
 		held := false
 		for _, t := range w.vs.AllTasks() {
